@@ -274,7 +274,14 @@ def default_cases(profile=None, quick=120, thorough=1500):
     def make(rng, tier, budget):
         g = gen.Gen(rng, profile)
         n = (quick if tier == "quick" else thorough) * budget
-        return [g.case() for _ in range(n)]
+        out = [g.case() for _ in range(n)]
+        # a fixed quota of every hand-written shape, so that what they exercise does not depend on luck
+        for tpl in (g.template_nested_failures, g.template_output_becomes_dir, g.template_listing_in_failing,
+                    g.template_rewrite_after_nested):
+            for _ in range((2 if tier == "quick" else 12) * budget):
+                g.nvar = 0
+                out.append(tpl())
+        return out
     return make
 
 
